@@ -279,6 +279,34 @@ def _run(ev, work, thorough, seed):
                     ev.drift.append({"a": tr["a"], "b": tr["b"], "at": tr["at"], "events": tr["events"]})
         if rejected:
             print("DRIFT: %d of %d scheduler runs are not explained by the Handles mechanism model" % (rejected, len(traces)))
+        # ---- binding self-test: tampered copies of accepted runs must not be explained by the specification ----
+        acc = [traces[i] for i in range(len(traces)) if (i + 1) in done and traces[i]["lookB"]][:60]
+        tampered = []
+        for k, tr in enumerate(acc):
+            evs = [dict(e) for e in tr["events"]]
+            if k % 2 == 0:
+                # B reported success: claim it failed although the sampled tree held every name it looked up
+                for e in evs:
+                    if e["ev"] == "b_end":
+                        e["result"] = "failed" if e["result"] == "ok" else "ok"
+            else:
+                # the sampled tree lacks a name B looked up, yet B is recorded as successful
+                for e in evs:
+                    if e["ev"] == "sample":
+                        e["children"] = [c for c in e["children"] if c != tr["lookB"][0]]
+            if evs != tr["events"]:
+                tampered.append(dict(tr, events=evs))
+        if tampered:
+            tf2 = os.path.join(work, "htraces-tampered.json")
+            with open(tf2, "w") as f:
+                json.dump(tampered, f)
+            res2 = T.run_tlc("HandlesTrace", "HandlesTrace.cfg", work, env={"TRACE_FILE": tf2}, workers=1, timeout=1800)
+            done2 = {int(m.group(1)) for m in re.finditer(r'<<\s*"DONE",\s*(\d+),', res2.out)}
+            ev.add_tlc("HandlesTrace binding self-test: %d tampered runs (outcome of B flipped / a looked-up name removed from the "
+                       "sampled tree), %d accepted" % (len(tampered), len(done2)), res2)
+            ev.extra["tampered_traces"] = {"submitted": len(tampered), "accepted": len(done2)}
+            if len(done2) > len(tampered) // 4:
+                raise T.TLCError("the trace specification accepts %d of %d tampered runs: it does not bind the code" % (len(done2), len(tampered)))
     ev.extra.update(pairs=len(pairs), writer_points=wr["points"], traces_rejected_as_drift=rejected,
                     points_per_pair={"%s|%s" % (r["a"], r["b"]): r["points"] for r in results if isinstance(r, dict)})
     ev.rule = ("for each ordered pair (A, B) of operation kinds on one shared handle: every line event of A (stride 3 for "
